@@ -175,7 +175,7 @@ def observe(case, en):
         libcost: list = []
         iters: list = []
 
-        def run_force():
+        def run_force(visualize=None):
             calls = []
             libcost.clear()
             iters.clear()
@@ -205,9 +205,13 @@ def observe(case, en):
                 return res
             fr.fruchterman_reingold_layout = wrap
             try:
-                rd, _ = fr.force_algorithm(copy.deepcopy(die), False, None, n)
+                if visualize is not None and orig_plot is not None:
+                    fr.get_floorplan_plot = lambda *a, **k: None          # the frames themselves are not the subject
+                rd, _ = fr.force_algorithm(copy.deepcopy(die), False, visualize, n)
             finally:
                 fr.fruchterman_reingold_layout = orig_layout
+                if orig_plot is not None:
+                    fr.get_floorplan_plot = orig_plot
             return rd, calls
         t = dict(base, kind="run", call="force_algorithm", p0=p0, sig0=sig0)
         calls = []
@@ -224,7 +228,10 @@ def observe(case, en):
         except Exception as e:
             t.update(empty, ret=0, exception=f"{type(e).__name__}: {e}")
         traces.append(t)
-        if t["ret"] and len(calls) >= 1:
+
+        def sel_trace(calls, libs, its, lay_bits, callname):
+            if len(calls) < 1:
+                return {"kind": "sel", "call": callname, "n": n, "tried": [], "final_kappa": 0, "lay": "|".join(lay_bits), "hook_lost": 1}
             # the tries: every layout call, except a last call that repeats an earlier spring constant (the code on the
             # pinned tree recomputes the winner on the caller's die; an implementation that keeps the winning layout
             # instead makes no such call -- benign change B09/3 -- and then every call is a try)
@@ -233,21 +240,31 @@ def observe(case, en):
             fin_c = [c for (_k, c, _l) in tried if isinstance(c, float) and math.isfinite(c)]
             mx = max([abs(c) for c in fin_c] + [0.0])
             sc = 1e8 / mx if mx > 0 else 1.0
-            # exact order of the library's own costs of the first run (dense rank, 1 = smallest): what the scan compares
-            lc = first_lib[:len(tried)]
+            # exact order of the library's own costs (dense rank, 1 = smallest): what the scan compares
+            lc = libs[:len(tried)]
             order = sorted(set(x for x in lc if isinstance(x, float) and math.isfinite(x)))
             rank_of = {x: i + 1 for i, x in enumerate(order)}
             ranks = [rank_of.get(x, COSTINF) for x in lc] + [COSTINF] * (len(tried) - len(lc))
-            traces.append({"kind": "sel", "call": "force_algorithm", "n": n,
-                           # <<kappa, cost, layout, rank, iterations the try was run with>>
-                           "tried": [([round(k * 1000), round(c * sc), l, ranks[i]] if (isinstance(c, float) and math.isfinite(c))
-                                      else [round(k * 1000), COSTINF, l, COSTINF]) + [first_iters[i] if i < len(first_iters) else -1]
-                                     for i, (k, c, l) in enumerate(tried)],
-                           "final_kappa": round(calls[-1][0] * 1000),
-                           "lay": "|".join(t["bitsA"])})
-        elif t["ret"]:
-            traces.append({"kind": "sel", "call": "force_algorithm", "n": n, "tried": [], "final_kappa": 0,
-                           "lay": "|".join(t["bitsA"]), "hook_lost": 1})
+            return {"kind": "sel", "call": callname, "n": n,
+                    # <<kappa, cost, layout, rank, iterations the try was run with>>
+                    "tried": [([round(k * 1000), round(c * sc), l, ranks[i]] if (isinstance(c, float) and math.isfinite(c))
+                               else [round(k * 1000), COSTINF, l, COSTINF]) + [its[i] if i < len(its) else -1]
+                              for i, (k, c, l) in enumerate(tried)],
+                    "final_kappa": round(calls[-1][0] * 1000), "lay": "|".join(lay_bits)}
+
+        if t["ret"]:
+            traces.append(sel_trace(calls, first_lib, first_iters, t["bitsA"], "force_algorithm"))
+            # force_algorithm(visualize=...): the frames are an output option, the layout returned must be the same, and it
+            # must again be the cheapest of the layouts tried
+            if case.get("visforce", True):
+                try:
+                    rV, callsV = run_force("verif")
+                    t["bitsV"] = _centres(rV, S)[2]
+                    traces.append(sel_trace(callsV, list(libcost), list(iters), t["bitsV"], "force_algorithm_visualize"))
+                except Exception as e:
+                    t["bitsV"] = [f"raised {type(e).__name__}"]
+            else:
+                t["bitsV"] = []
     return traces
 
 
@@ -319,7 +336,7 @@ def from_tlc(g, rng: random.Random, idx: int) -> dict:
     elif style == 2 and len(names) >= 2:
         nets = [[a, b, [rng.choice([1, 2, 3]), rng.choice([1, 2])]] for a, b in zip(names, names[1:])]
     return {"W": g["W"] * K, "H": g["H"] * K, "mods": mods, "nets": nets, "n": g["n"],
-            "kappa1000": [400, 1000, 1500, 100, 3000][idx % 5], "call": "both" if idx % 3 == 0 else "layout", "origin": "tlc",
+            "kappa1000": [400, 1000, 1500, 100, 3000][idx % 5], "call": "both" if idx % 3 == 0 else "layout", "origin": "tlc", "visforce": idx % 6 == 0,
             "flavour": (idx // 3) % 4}
 
 
@@ -372,10 +389,10 @@ def random_cases(rng: random.Random, count: int, long: bool = False) -> list[dic
         call = rng.choice(["layout", "layout", "both", "force"])
         n = rng.choice([0, 1, 2, 5, 20, 100]) if call == "layout" else rng.choice([0, 1, 2, 5, 20])
         if long:
-            call, n = "force", rng.choice([101, 150, 250])
+            call, n = "force", rng.choice([100, 101, 150, 250])
         cases.append({"W": W, "H": H, "mods": mods, "nets": nets, "n": n,
                       "kappa1000": rng.choice([100, 400, 700, 1000, 1500, 3000]), "call": call, "origin": "random",
-                      "flavour": rng.randrange(4)})
+                      "flavour": rng.randrange(4), "visforce": nm <= 6})
     return cases
 
 
@@ -441,6 +458,8 @@ def decide(ctx: Ctx, cases: list[dict], stride: int = 1):
                     detail.update(bitsA=t["bitsA"], bitsB=t["bitsB"])
                 if clause == "deterministic_across_processes":
                     detail.update(bitsA=t["bitsA"], bitsX=t["bitsX"])
+                if clause == "visualize_returns_the_same_layout":
+                    detail.update(bitsA=t["bitsA"], bitsV=t["bitsV"])
                 if "exception" in t:
                     detail["exception"] = t["exception"]
             else:
@@ -490,6 +509,7 @@ def run(ctx: Ctx) -> int:
     cases += random_cases(rng2, 4 if tier == "quick" else 60, long=True)
     for i, c in enumerate(cases[first_long:]):      # one embedding each (26 + 13 layouts of up to 250 iterations per embedding)
         c["embs"] = [ORIGIN0[i % len(ORIGIN0)]]
+        c["visforce"] = i % 3 == 0                   # the visualize variant of force_algorithm for a third of them
     ctx.extra["force_algorithm_cases_above_100_iterations"] = len(cases) - first_long
     decide(ctx, cases, stride=1 if tier == "quick" else 3)
     ctx.extra["embeddings"] = ORIGIN0
@@ -500,7 +520,7 @@ def run(ctx: Ctx) -> int:
         "any number coincident); fixed modules with rectangles lie inside the die and do not overlap (Die rejects anything else)",
         "float dimension sampled: every case under 2 of the 7 origin-0 embeddings (rotating), not enumerated",
         "'not moved' and 'inside the die' judged to 1e-9 of the larger die side; determinism judged on the bit patterns of the "
-        "returned centres of two executions on equal (deep-copied) inputs in one process, and of a third execution in a separate, "
+        "returned centres of two executions on equal (deep-copied) inputs in one process (and of the `visualize` variant of the call), and of a third execution in a separate, "
         "freshly forked child process (every case in the quick tier, every third case in the thorough tier)",
         "best-of: costs recomputed with the library's own total_intersection_area and wire_length on the layouts that "
         "force_algorithm itself produced (wrapper on the module-level name), compared after scaling to 1e-8 of the largest cost",
